@@ -216,7 +216,7 @@ class parameters:
                     
                 # here if float and int worked
                 # should not be needed, depends on int valueerror
-                if abs(vi - vf) < 1e-9:
+                if vf in (float('inf'), float('-inf')) or abs(vi - vf) < 1e-9:
                     # use int
                     self.parameters[name] = vi
                     continue
